@@ -4,6 +4,7 @@ import (
 	"fmt"
 	"go/token"
 	"go/types"
+	"regexp"
 	"sort"
 	"strings"
 
@@ -1403,7 +1404,64 @@ func runHash(c *Ctx) {
 	}
 	distinct := len(fm) == 3 && fm[k.Value] != fm[k.Arg] && fm[k.Arg] != fm[k.Out] && fm[k.Value] != fm[k.Out]
 	c.R.Add("HASH", "namespaces", "(Hashcode methods)", "-", distinct, "the three label-carrying kinds hash into distinct namespaces", fmt.Sprintf("%v", fm))
+	// the identity strings are read as formats: literal pieces around the rendered labels
+	if len(fm) == 3 {
+		pieces := func(f string) []string { return strings.Split(hashVerbRe.ReplaceAllString(f, "\x00"), "\x00") }
+		isIdent := func(b byte) bool {
+			return b == '_' || (b >= '0' && b <= '9') || (b >= 'a' && b <= 'z') || (b >= 'A' && b <= 'Z')
+		}
+		compat := func(a, b string) bool { return strings.HasPrefix(a, b) || strings.HasPrefix(b, a) }
+		// two labels never run into each other: consecutive labels are separated by a literal ("int"+"8" is "int8")
+		for _, kind := range []string{k.Value, k.Arg, k.Out} {
+			ps := pieces(fm[kind])
+			glued := false
+			for i := 1; i+1 < len(ps); i++ {
+				if ps[i] == "" {
+					glued = true
+				}
+			}
+			c.R.Add("HASH", kind+"|labels-separated", kind, "-", !glued && len(ps) >= 3,
+				"in a vertex identity two consecutive labels are separated by a literal, so different label tuples cannot render alike", fmt.Sprintf("%q", fm[kind]))
+		}
+		// a named value whose name is an identifier cannot render like a typed vertex: the typed identities start with a
+		// literal that no "name + separator" of the value identity can spell
+		why := ""
+		vp := pieces(fm[k.Value])
+		for _, kind := range []string{k.Arg, k.Out} {
+			tp := pieces(fm[kind])
+			switch {
+			case tp[0] == "":
+				why = kind + " identity starts with a label, not with a literal of its own"
+			case vp[0] != "":
+				if compat(vp[0], tp[0]) {
+					why = fmt.Sprintf("%s and %s identities start with compatible literals %q / %q", k.Value, kind, vp[0], tp[0])
+				}
+			default:
+				n := 0
+				for n < len(tp[0]) && isIdent(tp[0][n]) {
+					n++
+				}
+				if n == 0 {
+					break // no name starts like this literal
+				}
+				rest, sep := tp[0][n:], ""
+				if len(vp) > 1 {
+					sep = vp[1]
+				}
+				if sep == "" || isIdent(sep[0]) || compat(rest, sep) {
+					why = fmt.Sprintf("a value named %q renders %q…, which is how a %s identity starts (%q)", tp[0][:n], tp[0][:n]+sep, kind, tp[0])
+				}
+			}
+		}
+		if a, o := pieces(fm[k.Arg])[0], pieces(fm[k.Out])[0]; a != "" && o != "" && compat(a, o) && why == "" {
+			why = fmt.Sprintf("%s and %s identities start with compatible literals %q / %q", k.Arg, k.Out, a, o)
+		}
+		c.R.Add("HASH", "namespaces-disjoint", "(Hashcode methods)", "-", why == "",
+			"no value vertex with an identifier name can have the identity of a typed vertex, and the two typed kinds start with incompatible literals", ternary(why == "", fmt.Sprintf("%v", fm), why))
+	}
 }
+
+var hashVerbRe = regexp.MustCompile(`%[+#]?[a-zA-Z]`)
 
 // reachesReturn: value v flows (through calls' arguments, conversions, stores into varargs) into a returned value of f.
 func reachesReturn(v ssa.Value, f *ssa.Function) bool {
